@@ -12,9 +12,9 @@ Section Proofs.
   (** ---------- at most once ---------- *)
   Definition once_inv (st : stream) : Prop :=
     match ss st with
-    | SWait => invocations st = O
-    | SRunning _ | SWriting _ | SDone | SDropped => invocations st = 1%nat
-    | SFailed => (invocations st <= 1)%nat
+    | SWait | SQueued _ => invocations st = O
+    | SRunning _ | SWriting _ | SDone => invocations st = 1%nat
+    | SFailed | SDropped => (invocations st <= 1)%nat
     end.
 
   Ltac break H :=
@@ -102,7 +102,7 @@ Section Proofs.
     (delivered st <= length (wire st))%nat
     /\ match ss st with
        | SWait => True
-       | SRunning q => q = strip_req req
+       | SQueued q | SRunning q => q = strip_req req
        | SWriting r => r = handler (strip_req req) /\ enc_response max r = match resp_wire st with Some b => Ok b | None => Err EShort end
        | SDone => enc_response max (handler (strip_req req)) = match resp_wire st with Some b => Ok b | None => Err EShort end
        | SFailed | SDropped => True
@@ -126,7 +126,7 @@ Section Proofs.
        | _ => True
        end
     /\ match ss st with
-       | SRunning q => q = strip_req req
+       | SQueued q | SRunning q => q = strip_req req
        | SWriting r =>
            r = handler (strip_req req) /\ exists b, resp_wire st = Some b /\ enc_response max r = Ok b
        | SDone => exists b, resp_wire st = Some b /\ enc_response max (handler (strip_req req)) = Ok b
@@ -209,7 +209,7 @@ Section Proofs.
   (** ---------- C06: whatever bytes a stream carries, decoding is total and confined ---------- *)
   Lemma errors_confined st st' :
     sstep st TryDecode = Some st' ->
-    (exists q, ss st' = SRunning q /\ exists rest, dec_request max (firstn (delivered st) (wire st)) = Ok (q, rest))
+    (exists q, ss st' = SQueued q /\ exists rest, dec_request max (firstn (delivered st) (wire st)) = Ok (q, rest))
     \/ ss st' = SFailed.
   Proof.
     intros H. destruct st as [w c s d rw inv rs sp]. proj. break H; inversion H; subst; proj.
@@ -247,7 +247,19 @@ Section Proofs.
     - exists NoticeReset. eexists. split; [cbn; tauto|]. proj. split; [reflexivity|]. split; reflexivity.
     - exists NoticeStop. eexists. split; [cbn; tauto|]. proj. split; [reflexivity|]. split; reflexivity.
     - exists NoticeStop. eexists. split; [cbn; tauto|]. proj. split; [reflexivity|]. split; reflexivity.
+    - exists NoticeStop. eexists. split; [cbn; tauto|]. proj. split; [reflexivity|]. split; reflexivity.
   Qed.
+
+  (** A request given up while it waits for the service's readiness is never handed to the handler. *)
+  Lemma queued_dropped_never_invoked st q st' :
+    ss st = SQueued q -> sstep st NoticeStop = Some st' ->
+    ss st' = SDropped /\ invocations st' = invocations st /\ sstep st' Dispatch = None /\ sstep st' HandlerReturn = None.
+  Proof.
+    intros S H. destruct st as [w c s d rw inv rs sp]. proj. subst. break H. inversion H; subst. proj. auto.
+  Qed.
+
+  Lemma queued_never_invoked_yet st q : once_inv st -> ss st = SQueued q -> invocations st = O.
+  Proof. unfold once_inv. intros I S. now rewrite S in I. Qed.
 
   Lemma handler_dropped st q st' :
     ss st = SRunning q -> sstep st NoticeStop = Some st' ->
